@@ -66,6 +66,11 @@ def obligations(ctx, tier):
                 out += core.g_row(K, PROP, inh(A, "signum"),
                                   [(n, env_of(p0=v), (lambda A=A: lambda W, env: ("val", W.wrap(A, (env[0].v > 0) - (env[0].v < 0))))())
                                    for n, v in sign_reps])
+                # the sign predicates read the top digit: decidable now that digit arrays are modelled
+                out += core.g_row(K, PROP, inh(A, "is_positive"),
+                                  [(n, env_of(p0=v), lambda W, env: ("val", env[0].v > 0)) for n, v in sign_reps + more_sign_reps(A)])
+                out += core.g_row(K, PROP, inh(A, "is_negative"),
+                                  [(n, env_of(p0=v), lambda W, env: ("val", env[0].v < 0)) for n, v in sign_reps + more_sign_reps(A)])
                 if has_nt:
                     S_ = "num_traits::Signed"
                     for m in ("is_positive", "is_negative", "signum", "abs"):
@@ -78,6 +83,14 @@ def obligations(ctx, tier):
                                       [(n, env_of(p0=v), (lambda A=A: lambda W, env: ("val", W.wrap(A, (env[0].v > 0) - (env[0].v < 0))))())
                                        for n, v in sign_reps])
     return out
+
+
+def more_sign_reps(A):
+    """values whose top digit is zero / all ones while lower digits are not, and single-low-digit values"""
+    return [("one", V(A, 1)), ("low_digit", V(A, 77)), ("neg_one", V(A, -1)),
+            ("second_digit", lambda W: W.wrap(A, 1 << (W.bits(A) // W.n)) if W.n > 1 else W.wrap(A, 2)),
+            ("below_top_digit", lambda W: W.wrap(A, (1 << (W.bits(A) - W.bits(A) // W.n)) - 1) if W.n > 1 else W.wrap(A, 3)),
+            ("neg_low", lambda W: W.wrap(A, -(1 << (W.bits(A) // W.n)) - 5) if W.n > 1 else W.wrap(A, -3))]
 
 
 def build_features(cfg):
